@@ -70,4 +70,23 @@ theorem client_mapping_binary_custom : goClientErr true false .customMessage = .
 theorem client_status_tests :
     Gen.Pipeline.clientErrorThreshold = ">= 400" ∧ Gen.Pipeline.clientValidationStatusTest = "== http.StatusBadRequest" := by decide
 
+/-- **TS client mapping**: for EVERY status and body, the emitted TS client raises a ValidationError
+exactly for a 400 that carries violations, and otherwise an ApiError with the response's own status
+(a validation failure whose status a hook changed to 422 stays an ApiError 422). -/
+theorem ts_client_mapping (status : Nat) (hasViolations : Bool) :
+    tsClientErr status hasViolations = specTsClientErr status hasViolations := by
+  unfold tsClientErr specTsClientErr
+  have h1 : (Gen.PropNames.tsClientValidationStatusTest == "resp.status === 400") = true := by decide
+  have h2 : (Gen.PropNames.tsClientValidationBodyTest == "parsed.violations") = true := by decide
+  simp only [h1, h2, if_true]
+  by_cases hs : status = 400 <;> cases hasViolations <;> simp [hs]
+
+/-- the TS client's tests and what its errors carry, regenerated from the emitted client. -/
+theorem ts_client_status_tests :
+    Gen.PropNames.tsClientErrorTest = "!resp.ok" ∧ Gen.PropNames.tsClientValidationStatusTest = "resp.status === 400" ∧
+    Gen.PropNames.tsClientValidationBodyTest = "parsed.violations" ∧ Gen.PropNames.tsClientValidationCarries = "parsed.violations" ∧
+    Gen.PropNames.tsClientApiErrorArgs = "resp.status, `Request failed with status ${resp.status}`, body" := by decide
+
+example : tsClientErr 422 true = .api 422 ∧ tsClientErr 400 true = .validation ∧ tsClientErr 400 false = .api 400 := by decide
+
 end Sebuf.C10
